@@ -397,18 +397,33 @@ func c20CheckFormats(c *core.C, keyBase string, runs map[string]*c20Obs, diff *b
 		class, suffix, msg := c20Disagreement(f, refT, ann, r.args)
 		c.Eval(1)
 		if class != "" && rerun != nil {
-			for try := 0; try < 3 && class != ""; try++ {
-				j2, f2 := rerun("json"), rerun(f)
-				a2, _ := j2.annotationBytes()
-				ref2, err2 := c20Decode("json", a2)
-				if err2 != nil {
-					continue
+			// Which compile errors buf reports varies from run to run (each format needs a run of its own). A
+			// disagreement counts only if NO run of this format renders what SOME json run reported: up to eight
+			// more runs of each are collected and every pair is compared. A format that really renders the
+			// annotations differently never matches any json run.
+			refs := [][]c20Tuple{refT}
+			outs := []*c20Obs{r}
+			for try := 0; try < 8 && class != ""; try++ {
+				if j2 := rerun("json"); j2 != nil {
+					a2, _ := j2.annotationBytes()
+					if ref2, err2 := c20Decode("json", a2); err2 == nil {
+						refs = append(refs, ref2)
+					}
 				}
-				b2, _ := f2.annotationBytes()
-				if cl, _, _ := c20Disagreement(f, ref2, b2, f2.args); cl == "" {
-					class = ""
-					c.Count("reported_compile_errors_varied_between_runs", 1)
+				if f2 := rerun(f); f2 != nil {
+					outs = append(outs, f2)
 				}
+				for _, rf := range refs {
+					for _, o2 := range outs {
+						b2, _ := o2.annotationBytes()
+						if cl, _, _ := c20Disagreement(f, rf, b2, o2.args); cl == "" {
+							class = ""
+						}
+					}
+				}
+			}
+			if class == "" {
+				c.Count("reported_compile_errors_varied_between_runs", 1)
 			}
 		}
 		if class != "" {
